@@ -136,6 +136,38 @@ impl FrameCase {
     }
 }
 
+/// Frames whose content tends to exceed a small window and to span several blocks (so that
+/// draining mid-frame, window retention and ring wrap-around matter).
+pub fn frame_case_small_window(tier: Tier) -> impl Strategy<Value = FrameCase> {
+    let max_len = match tier {
+        Tier::Quick => 600_000u32,
+        Tier::Thorough => 4_000_000u32,
+    };
+    let len = prop_oneof![2 => 2_000u32..=40_000, 3 => 20_000u32..=300_000, 1 => 100_000u32..=max_len];
+    let data = (data_strategy(max_len), len).prop_map(|(mut d, len)| {
+        if d.kind != 6 {
+            d.len = len;
+        }
+        d
+    });
+    let cfg = (refcfg_strategy(14), 10u32..=14, prop_oneof![Just(0u32), 1024u32..=8192]).prop_map(|(mut c, w, mb)| {
+        c.window_log = w;
+        c.ldm = false;
+        if c.max_block == 0 {
+            c.max_block = mb;
+        }
+        c
+    });
+    prop_oneof![
+        6 => (data, cfg).prop_map(|(data, cfg)| FrameCase::Ref { data, cfg }),
+        3 => framespec_strategy(4, 300, false).prop_map(|mut s| {
+            s.single_segment = false;
+            s.window_desc &= 0x1F; // exponent 0..=3: windows 1 KiB .. 15 KiB
+            FrameCase::Synth(s)
+        }),
+    ]
+}
+
 pub fn frame_case_strategy(tier: Tier) -> impl Strategy<Value = FrameCase> {
     let (max_len, max_wlog, max_exp, max_seqs, big) = match tier {
         Tier::Quick => (1u32 << 20, 22, 12u8, 2000usize, false),
